@@ -14,7 +14,7 @@ EN_FLOW, EN_STATUS, EN_SETTING = 8, 11, 12
 
 
 class Direct(object):
-    __slots__ = ('times', 'node', 'link', 'warn', 'halted', 'all_times')
+    __slots__ = ('times', 'node', 'link', 'warn', 'halted', 'all_times', 'tank_inflow', 'tank_head')
 
 
 def run(text, units, spec, prefix='c03T'):
@@ -36,14 +36,21 @@ def run(text, units, spec, prefix='c03T'):
     rows_l = {'flowrate': [], 'open': [], 'setting': []}
     times = []
     all_times = []
+    tanks = [t['name'] for t in spec['tanks']]
+    tank_q = {t: [] for t in tanks}
+    tank_h = {t: [] for t in tanks}
     try:
         nidx = [en.ENgetnodeindex(n) for n in nodes]
+        tidx = [en.ENgetnodeindex(n) for n in tanks]
         lidx = [en.ENgetlinkindex(l) for l in links]
         en.ENopenH()
         en.ENinitH(0)
         while True:
             t = int(en.ENrunH())
             all_times.append(t)
+            for n, i in zip(tanks, tidx):
+                tank_q[n].append(en.ENgetnodevalue(i, EN_DEMAND) * f['flow'])
+                tank_h[n].append(en.ENgetnodevalue(i, EN_HEAD) * f['len'])
             if t % rep == 0:
                 times.append(t)
                 rows_n['head'].append([en.ENgetnodevalue(i, EN_HEAD) * f['len'] for i in nidx])
@@ -71,6 +78,8 @@ def run(text, units, spec, prefix='c03T'):
             pass
     out.times = np.array(times, dtype=float)
     out.all_times = all_times
+    out.tank_inflow = tank_q    # net inflow of every tank at every solved instant (all_times), m3/s
+    out.tank_head = tank_h      # head of every tank at every solved instant, m
     out.node = {k: {n: np.array([r[i] for r in v], dtype=float) for i, n in enumerate(nodes)} for k, v in rows_n.items()}
     out.link = {k: {l: np.array([r[i] for r in v], dtype=float) for i, l in enumerate(links)} for k, v in rows_l.items()}
     out.warn = list(en.errcodelist)
